@@ -798,11 +798,41 @@ def extract_caches(repo: Path):
     return sorted(set(rows))
 
 
-def emit_caches(rows):
+def extract_wrapper_setters(repo: Path):
+    """Every descriptor `__set__` that replaces a whole repeated field (calls replace_node and stores the new wrapper in the
+    instance dict): does it forget the model's cached views afterwards (a call to drop_cached_views after the store)?"""
+    pkg = repo / 'autobean_refactor'
+    rows = []
+    for p in sorted(pkg.rglob('*.py')):
+        rel = p.relative_to(pkg)
+        if p.name.endswith('_test.py') or rel.parts[0] in ('modelgen', 'meta_models', 'tests') or 'conftest' in p.name:
+            continue
+        try:
+            t = ast.parse(p.read_text())
+        except SyntaxError:
+            continue
+        for cls in [n for n in ast.walk(t) if isinstance(n, ast.ClassDef)]:
+            for fn in cls.body:
+                if not (isinstance(fn, ast.FunctionDef) and fn.name == '__set__'):
+                    continue
+                calls = [(n.lineno, ast.unparse(n.func).split('.')[-1]) for n in ast.walk(fn) if isinstance(n, ast.Call)]
+                stores = [n.lineno for n in ast.walk(fn) if isinstance(n, ast.Subscript) and isinstance(n.ctx, ast.Store)
+                          and ast.unparse(n.value).endswith('__dict__')]
+                if not stores or not any(c == 'replace_node' for _, c in calls):
+                    continue
+                drops = any(c == 'drop_cached_views' and ln > max(stores) for ln, c in calls)
+                rows.append((str(rel), cls.name, 'drops' if drops else 'keeps'))
+    return sorted(set(rows))
+
+
+def emit_caches(rows, setters=()):
     L = ['/- GENERATED by extract/extract.py from /repo/autobean_refactor/**/*.py. Do not edit. -/', '',
          'namespace Autobean.Generated', '',
          '/-- (file, qualified name, how) of everything in the package that remembers a computed value. -/',
          'def cachedDefs : List (String × String × String) := ' + llist(rows, lambda t: f'({lstr(t[0])}, {lstr(t[1])}, {lstr(t[2])})'), '',
+         '/-- (file, descriptor class, drops | keeps): every `__set__` that replaces a whole repeated field, and whether it forgets',
+         '    the cached views of the model afterwards. -/',
+         'def wrapperSetters : List (String × String × String) := ' + llist(list(setters), lambda t: f'({lstr(t[0])}, {lstr(t[1])}, {lstr(t[2])})'), '',
          'end Autobean.Generated', '']
     return '\n'.join(L)
 
@@ -822,7 +852,7 @@ def main(argv):
         changed.append('Effects')
     if write_if_changed(out / 'Refusals.lean', emit_refusals(extract_refusals(repo))):
         changed.append('Refusals')
-    if write_if_changed(out / 'Caches.lean', emit_caches(extract_caches(repo))):
+    if write_if_changed(out / 'Caches.lean', emit_caches(extract_caches(repo), extract_wrapper_setters(repo))):
         changed.append('Caches')
     errs = ['/- GENERATED by extract/extract.py. Constructs of the source the translator could not read. -/', '',
             'namespace Autobean.Generated', '', 'def extractErrors : List String := ' + llist(ERRORS, lstr), '', 'end Autobean.Generated', '']
